@@ -110,7 +110,11 @@ def make_prestate(e, n, k, radii_mode="array"):
     for c in range(k):
         idx = e.pick(subs)
         species = set(int(numbers[i]) for i in idx)
-        clusters.append(CLM.Cluster(set(idx), species, Region(idx, c), system=system, distances=dist, radii=radii, bond_threshold=bt))
+        # SBC builds a cluster from a *set* of indices; the iteration order of a set of ints is ascending only for small
+        # values (it depends on the hash table size), so both orders are admissible
+        # (explored for the first cluster; the others are listed ascending to keep the path count in check)
+        members = list(idx) if (c > 0 or len(idx) < 2 or e.choose(2) == 0) else list(idx)[::-1]
+        clusters.append(CLM.Cluster(members, species, Region(idx, c), system=system, distances=dist, radii=radii, bond_threshold=bt))
     return numbers, D, dist, system, radii, bt, clusters
 
 
@@ -150,7 +154,7 @@ def concrete_postprocess(numbers, Dv, index_sets, merge_threshold, merge_radius,
     system = Atoms(numbers=numbers, positions=np.zeros((n, 3)), cell=np.eye(3) * 10, pbc=True)
     dist = Distances(None, None, None, np.array(Dv, dtype=float))
     radii = np.ones(n) * 0.5 if radii is None else np.array(radii, dtype=float)
-    clusters = [CLM.Cluster(set(idx), set(int(numbers[i]) for i in idx), Region(idx, c), system=system, distances=dist,
+    clusters = [CLM.Cluster(list(idx), set(int(numbers[i]) for i in idx), Region(idx, c), system=system, distances=dist,
                             radii=radii, bond_threshold=bond_threshold) for c, idx in enumerate(index_sets)]
     s = SBCM.SBC()
     if do_merge:
